@@ -193,6 +193,7 @@ pub struct Lock {
     /// run a full five-region compare every this many cases
     pub full_every: u32,
     since_full: u32,
+    cases: u64,
     ring: Vec<(Case, Action)>,
     pub full_compares: u64,
     /// unlocated or located stray writes found by the full compare: (case line, addr, real, model)
@@ -201,6 +202,28 @@ pub struct Lock {
     pub judge_cost: bool,
     /// extra window (bytes on each side of every touched address) compared after every step
     pub window: u32,
+}
+
+/// Fill every I/O register location that this emulator keeps as plain storage (see gen::io_noise)
+/// with a pattern, on the real machine and in the mirror: 0 = zeros (power-on), 1 = all ones,
+/// otherwise pseudo-random bytes. Background configuration for the cases that follow.
+pub fn io_background(cpu: &mut Cpu, mem: &mut Mem, pattern: u64) {
+    for a in (0xfee000u32..=0xfee0ff).chain(0xffff20..=0xffffe9) {
+        if crate::refmodel::mem::is_special_io(a) || (0xfee020..=0xfee026).contains(&a) {
+            continue;
+        }
+        let v = match pattern % 4 {
+            0 => 0,
+            1 => 0xff,
+            _ => {
+                let mut x = (a as u64 ^ pattern.wrapping_mul(0x9e3779b97f4a7c15)).wrapping_mul(0xbf58476d1ce4e5b9);
+                x ^= x >> 29;
+                (x >> 8) as u8
+            }
+        };
+        mem.poke(a, v);
+        real_poke(cpu, a, v);
+    }
 }
 
 pub fn real_peek(cpu: &Cpu, addr: u32) -> Option<u8> {
@@ -339,6 +362,7 @@ impl Lock {
             mem: Mem::new(),
             full_every: 1024,
             since_full: 0,
+            cases: 0,
             ring: vec![],
             full_compares: 0,
             strays: vec![],
@@ -396,6 +420,11 @@ impl Lock {
     }
 
     pub fn run_action(&mut self, c: &Case, action: Action) -> Obs {
+        // the background contents of the plain I/O register locations change every 1024 cases
+        self.cases += 1;
+        if self.cases % 1024 == 0 {
+            io_background(&mut self.cpu, &mut self.mem, self.cases / 1024);
+        }
         let obs = self.run_inner(c, action);
         self.ring.push((c.clone(), action));
         self.since_full += 1;
@@ -416,8 +445,12 @@ impl Lock {
             Action::Interrupt(v) => model_interrupt(&mut regs, &mut self.mem, v),
         };
         // snapshot of the real bytes in the windows we are going to compare (to report changes)
+        // everything the reference wrote, and everything the set-up touched (code bytes, patches):
+        // the undo below restores those bytes on both sides, so a stray write there would otherwise
+        // vanish before the next full compare
         let mut watch: Vec<u32> = Vec::new();
-        for (a, _) in &self.mem.wlog[setup_mark..] {
+        let from = if setup_mark <= 1024 { 0 } else { setup_mark };
+        for (a, _) in &self.mem.wlog[from..] {
             watch.push(*a);
         }
         if let Some(ea) = step.ea {
@@ -640,6 +673,9 @@ impl Sess {
     }
     pub fn regs(&self) -> Regs {
         real_regs(&self.cpu)
+    }
+    pub fn io_background(&mut self, pattern: u64) {
+        io_background(&mut self.cpu, &mut self.mem, pattern);
     }
     pub fn set_regs(&mut self, r: &Regs) {
         set_real_regs(&mut self.cpu, r);
